@@ -20,6 +20,37 @@ def root_of(r):
     return None
 
 
+def root_class(r):
+    """class of the earliest soundness violation the monitor recorded (None if it recorded nothing)"""
+    if not r.unsound:
+        return None
+    u = r.unsound[0]
+    kind = u[1]
+    try:
+        i = u.index("static=")
+        static = u[i + 1]
+        j = u.index("value=")
+        value = u[j + 1]
+    except (ValueError, IndexError):
+        # atoms like static=never are single tokens
+        static = next((x[7:] for x in u if isinstance(x, str) and x.startswith("static=") and len(x) > 7), None)
+        value = None
+        for k, x in enumerate(u):
+            if x == "value=":
+                value = u[k + 1]
+            elif isinstance(x, str) and x.startswith("value=") and len(x) > 6:
+                value = x[6:]
+        if static is None:
+            try:
+                static = u[u.index("static=") + 1]
+            except (ValueError, IndexError):
+                static = "?"
+    if (kind == "BinOperation:FunctionCall" and isinstance(static, list) and static[:2] == ["tup", "bool"]
+            and isinstance(value, list) and value[:2] == ["tup", "false"]):
+        return "exhausted-iterator-junk"
+    return "%s/%s" % (kind, sexp_str(static) if isinstance(static, list) else static)
+
+
 def hide_constants(stmts):
     """the constant-hidden twin: every int literal n becomes hc(n), hc an identity function the folder
     cannot see through (calls are never folded)"""
@@ -95,7 +126,7 @@ def judge(res, recs, broken_model, want_tags=False, label="prog"):
                 rr = shrink_rec(r, lambda x: x.status == st and (x.ivalue or "")[:6] == key)
             res.violation("implementation and reference semantics differ on `%s`: impl %s, Spec %s" % (rr.src[:400], rr.ivalue, rr.mvalue),
                           dict(program=rr.src, flags=rr.flags, impl=rr.impl, model=rr.model, sexp=rr.sexp, original=r.src),
-                          dict(oracle="spec-diff", root=root_of(rr) or root, cls="tags" if st == "agree-content" else "value"))
+                          dict(oracle="spec-diff", root=root_of(rr) or root, rootcls=root_class(rr) or root_class(r), cls="tags" if st == "agree-content" else "value"))
         elif st == "exec-panic":
             rr = r
             if nshrunk < 3:
@@ -104,7 +135,7 @@ def judge(res, recs, broken_model, want_tags=False, label="prog"):
                 rr = shrink_rec(r, lambda x: x.status == "exec-panic" and x.panic_at == at)
             res.violation("accepted program panics at %s: `%s`" % (rr.panic_at, rr.src[:400]),
                           dict(program=rr.src, flags=rr.flags, impl=rr.impl, model=rr.model, original=r.src),
-                          dict(oracle="panic", root=root_of(rr) or root or ("site:" + str(rr.panic_at))))
+                          dict(oracle="panic", root=root_of(rr) or root or ("site:" + str(rr.panic_at)), rootcls=root_class(rr) or root_class(r)))
         elif st == "parse-panic":
             rr = r
             if nshrunk < 3:
@@ -118,7 +149,7 @@ def judge(res, recs, broken_model, want_tags=False, label="prog"):
             res.violation("reference semantics meets an operation on values of the wrong kind (%s) in an accepted program `%s` (impl: %s)" %
                           (r.model[:80], r.src[:300], (r.ivalue or r.impl)[:80]),
                           dict(program=r.src, flags=r.flags, impl=r.impl, model=r.model),
-                          dict(oracle="model-wrong", root=root))
+                          dict(oracle="model-wrong", root=root, rootcls=root_class(r)))
         else:
             res.violation("implementation crashed or hung (%s) on `%s`" % (r.impl[:60], r.src[:300]),
                           dict(program=r.src, flags=r.flags, impl=r.impl), dict(oracle="crash", cls=r.impl[:20]))
